@@ -48,8 +48,14 @@ class PieceOracle:
         else:
             d1 = kv[i + q] - kv[i]; d2 = kv[i + q + 1] - kv[i + 1]
             a = self.N(i, q - 1); b = self.N(i + 1, q - 1)
-            t1 = z3.RealVal(0) if z3.is_rational_value(a) and a.numerator_as_long() == 0 else z3.If(d1 == 0, z3.RealVal(0), (x - kv[i]) / d1 * a)
-            t2 = z3.RealVal(0) if z3.is_rational_value(b) and b.numerator_as_long() == 0 else z3.If(d2 == 0, z3.RealVal(0), (kv[i + q + 1] - x) / d2 * b)
+            zero = lambda t: z3.is_rational_value(t) and t.numerator_as_long() == 0
+            # the 0/0 := 0 convention is decided by FORKING the path on "denominator = 0" (coincident knots), so that every division
+            # that remains in the terms has a divisor that is non-zero on the current path (needed for sound division clearing)
+            c = sx.ctx()
+            t1 = z3.RealVal(0)
+            if not zero(a) and not c.branch(d1 == 0): t1 = (x - kv[i]) / d1 * a
+            t2 = z3.RealVal(0)
+            if not zero(b) and not c.branch(d2 == 0): t2 = (kv[i + q + 1] - x) / d2 * b
             r = z3.simplify(t1 + t2)
         self.memo[(i, q)] = r
         return r
